@@ -232,4 +232,9 @@ pub mod facade {
       self.0.len()
     }
   }
+
+  /// Actors of this context that have started and not yet reported stopping.
+  pub fn context_live_actors(ctx: &crate::Context) -> usize {
+    ctx.verif_live_actors()
+  }
 }
